@@ -2,6 +2,7 @@ import DW.Render
 import DW.Sem
 import DW.Spec
 import DW.Sexp
+import DW.Fmt
 
 /-!
 # Driver side of correspondence B
@@ -88,6 +89,25 @@ def resStr (it : Item) : Res PLeaf → String
   | .panic => "PANIC"
   | .stuck => "STUCK"
 
+/-- A field value's own `Debug` text: a placeholder the harness replaces (position of the field). -/
+def leafPh (a : PLeaf) : String := s!"@{a.1}@"
+
+def escNl (s : String) : String := s.replace "\n" "\\n"
+
+/-- `{:?}` and `{:#?}` of the specification (`Fmt.specDebugText`). -/
+def specText (it : Item) (a : Val PLeaf) : String :=
+  match Fmt.specDebugText false it leafPh a, Fmt.specDebugText true it leafPh a with
+  | some c, some p => c ++ "\x1f" ++ escNl p
+  | _, _ => "none"
+
+/-- The same for the formatter calls the generated `fmt` performed, rendered by the model of `core::fmt`'s builders. -/
+def logText (it : Item) : Res PLeaf → String
+  | .ok (_, l) =>
+    match Fmt.renderLog false it.strText leafPh l, Fmt.renderLog true it.strText leafPh l with
+    | some c, some p => c ++ "\x1f" ++ escNl p
+    | _, _ => "none"
+  | _ => "none"
+
 def parseVal (s : String) : Option (Val PLeaf) :=
   match s.splitOn ":" with
   | [k, fs] => do
@@ -141,7 +161,9 @@ def answer (p : ProbeCtx) (q : String) : String :=
     | _, _, _ => "bad-query"
   | ["debug", a] =>
     match parseVal a, methodOf p .debug with
-    | some a, some body => s!"spec={logStr it (specDebugLog it a)} eval={resStr it (runMethod p.cx body a none)}"
+    | some a, some body =>
+      let r := runMethod p.cx body a none
+      s!"spec={logStr it (specDebugLog it a)} eval={resStr it r} text={specText it a}\x1e{logText it r}"
     | _, _ => "bad-query"
   | ["default"] =>
     match methodOf p .default with
